@@ -192,6 +192,15 @@ def d4_effects(ctx, mod):
         n += 1
         s = an.summary(('correlators', q))
         evs = [e for e in s.events if significant(e)]
+        # `p /= x` on a bare parameter is in place when p is an array: evidence = the parameter is used as an array in this method
+        for e in s.events:
+            if not significant(e) and e.kind.startswith('augmented') and e.ref.root != 'self':
+                nm = e.ref.root
+                arr = any((isinstance(x, ast.Attribute) and isinstance(x.value, ast.Name) and x.value.id == nm and x.attr in ('shape', 'T', 'ndim')) or
+                          (isinstance(x, ast.BinOp) and isinstance(x.op, ast.MatMult) and any(isinstance(o, ast.Name) and o.id == nm for o in (x.left, x.right)))
+                          for x in walk(f))
+                if arr:
+                    evs.append(e)
         if q in SETTERS:
             ctx.holds(rule, 'correlators.py:%s#effects' % q, 'excepted: %s' % SETTERS[q])
             continue
@@ -463,6 +472,7 @@ SELFTEST = [
     ('mul-partner-unguarded', 'pyerrors/correlators.py', "                if _check_for_none(self, self.content[t]) or _check_for_none(y, y.content[t]):\n                    newcontent.append(None)\n                else:\n                    newcontent.append(self.content[t] * y.content[t])", "                if _check_for_none(self, self.content[t]):\n                    newcontent.append(None)\n                else:\n                    newcontent.append(self.content[t] * y.content[t])", 'C14-D1'),
     ('double-append', 'pyerrors/correlators.py', "            if (offset + t) % spacing != 0:\n                new_content.append(None)\n            else:", "            if (offset + t) % spacing != 0:\n                new_content.append(None)\n            if (offset + t) % spacing == 0:\n                new_content.append(self.content[t])\n            else:", 'C14-D2'),
     ('missing-append', 'pyerrors/correlators.py', "            if _check_for_none(self, self.content[t]):\n                newcontent.append(None)\n            else:\n                newcontent.append(np.trace(self.content[t]))", "            if _check_for_none(self, self.content[t]):\n                continue\n            else:\n                newcontent.append(np.trace(self.content[t]))", 'C14-D2'),
+    ('inplace-normalise-array', 'pyerrors/correlators.py', "                vector_l, vector_r = vector_l / np.sqrt((vector_l @ vector_l)), vector_r / np.sqrt(vector_r @ vector_r)", "                vector_l /= np.sqrt(vector_l @ vector_l)\n                vector_r /= np.sqrt(vector_r @ vector_r)", 'C14-D4'),
     ('inplace-mul', 'pyerrors/correlators.py', "                else:\n                    newcontent.append(self.content[t] * y)\n            return Corr(newcontent, prange=self.prange)", "                else:\n                    self.content[t] = self.content[t] * y\n                    newcontent.append(self.content[t])\n            return Corr(newcontent, prange=self.prange)", 'C14-D4'),
     ('reverse-inplace', 'pyerrors/correlators.py', "        return Corr(self.content[:: -1])", "        self.content.reverse()\n        return Corr(list(self.content))", 'C14-D4'),
     ('sub-timeslice-shift', 'pyerrors/correlators.py', "                    newcontent.append(self.content[t] + y.content[t])", "                    newcontent.append(self.content[t] + y.content[t - 1])", None),
